@@ -199,6 +199,25 @@ pub fn c11(rep: &mut Report, aux: &str, thorough: bool, seed: u64) {
             }
         }
     }
+    // chains: every expression with two or more `=` is outside the grammar, whatever the pieces are
+    {
+        let toks = crate::ops_syntax::PROP_TOKENS;
+        for a in toks {
+            for b in toks {
+                for c in toks {
+                    for (esc, fl) in [("\\p", "u"), ("\\P", "v")] {
+                        let pat = format!("{}{{{}={}={}}}", esc, a, b, c);
+                        rep.case(&pat, false);
+                        rep.count("chain");
+                        if compile(&pat, fl, false).is_ok() {
+                            rep.violation("impl-vs-oracle", format!("/{}/{} accepted: a property expression has at most one `=` (UnicodePropertyValueExpression :: Name = Value | LoneNameOrValue)", pat, fl), pat.clone());
+                        }
+                    }
+                }
+            }
+        }
+        crate::ops_syntax::prop_expr_family(rep, "C08", if thorough { 20000 } else { 2000 }, &mut rng);
+    }
     // properties of strings need v; and are rejected under u and when negated
     for n in ["Basic_Emoji", "Emoji_Keycap_Sequence", "RGI_Emoji", "RGI_Emoji_Flag_Sequence", "RGI_Emoji_Modifier_Sequence", "RGI_Emoji_Tag_Sequence", "RGI_Emoji_ZWJ_Sequence"] {
         let p = format!("\\p{{{}}}", n);
